@@ -79,6 +79,10 @@ type parent struct {
 	sampleAt      map[[2]int64]bool
 	findingsDir   string
 	only          map[string]bool
+	budget        time.Duration
+	t0            time.Time
+	sysHandedOut  bool
+	sysHandoutS   float64
 }
 
 func sizeBucket(n int) string {
@@ -220,14 +224,70 @@ func (p *parent) addFinding(kind string, c *Case, msg string, stack []string, to
 	}
 }
 
+// mandatory is the length of the deterministic prefix of extractor i's case list.
+func (p *parent) mandatory(i int) int64 {
+	x := p.w.Exts[i]
+	lim := int64(len(x.Det) + len(x.Sys))
+	if p.maxCases > 0 && lim > p.maxCases {
+		lim = p.maxCases
+	}
+	return lim
+}
+
+func (p *parent) batch(s *extStats) int64 {
+	n := int64(16)
+	if s.Calls > 0 {
+		avg := s.SpentUS/s.Calls + 60
+		n = 150_000 / avg // about 150 ms of work per batch
+		if n < 2 {
+			n = 2
+		}
+		if n > 96 {
+			n = 96
+		}
+	}
+	return n
+}
+
 func (p *parent) pick() (e int, k0, n int64, ok bool) {
 	p.mu.Lock()
 	defer p.mu.Unlock()
+	best := -1
+	var bestCost int64
+	// phase 1, not subject to the wall-clock budget: the deterministic prefix of every extractor's case list
+	// (unmutated seeds, then the systematic pass) is handed out completely
+	if !p.sysHandedOut {
+		for i, s := range p.st {
+			lim := p.mandatory(i)
+			if s.nextK >= lim || (p.only != nil && !p.only[p.w.Exts[i].Name]) {
+				continue
+			}
+			cost := s.SpentUS + s.nextK*50
+			if best < 0 || cost < bestCost {
+				best, bestCost = i, cost
+			}
+		}
+		if best >= 0 {
+			s := p.st[best]
+			n = p.batch(s)
+			if lim := p.mandatory(best); s.nextK+n > lim {
+				n = lim - s.nextK
+			}
+			k0 = s.nextK
+			s.nextK += n
+			s.inflight++
+			return best, k0, n, true
+		}
+		p.sysHandedOut = true
+		p.sysHandoutS = time.Since(p.t0).Seconds()
+		// the random phase keeps at least 40% of its budget however long phase 1 took
+		if d := time.Now().Add(p.budget * 2 / 5); d.After(p.deadline) {
+			p.deadline = d
+		}
+	}
 	if time.Now().After(p.deadline) {
 		return 0, 0, 0, false
 	}
-	best := -1
-	var bestCost int64
 	for pass := 0; pass < 2 && best < 0; pass++ {
 		for i, s := range p.st {
 			if p.maxCases > 0 && s.nextK >= p.maxCases {
@@ -250,17 +310,7 @@ func (p *parent) pick() (e int, k0, n int64, ok bool) {
 		return 0, 0, 0, false
 	}
 	s := p.st[best]
-	n = 16
-	if s.Calls > 0 {
-		avg := s.SpentUS/s.Calls + 60
-		n = 150_000 / avg // about 150 ms of work per batch
-		if n < 2 {
-			n = 2
-		}
-		if n > 96 {
-			n = 96
-		}
-	}
+	n = p.batch(s)
 	if p.maxCases > 0 && s.nextK+n > p.maxCases {
 		n = p.maxCases - s.nextK
 	}
@@ -533,7 +583,7 @@ func runParent(cfg *Config, workers int, budget time.Duration, maxCases int64, o
 		return 2
 	}
 	p := &parent{cfg: cfg, w: w, findings: map[string]*Finding{}, sizeHist: map[string]int64{}, maxCases: maxCases,
-		deadline: t0.Add(budget), sampleAt: map[[2]int64]bool{}, findingsDir: findingsDir}
+		deadline: t0.Add(budget), sampleAt: map[[2]int64]bool{}, findingsDir: findingsDir, budget: budget, t0: t0}
 	if only != "" {
 		p.only = map[string]bool{}
 		for _, n := range strings.Split(only, ",") {
@@ -545,7 +595,7 @@ func runParent(cfg *Config, workers int, budget time.Duration, maxCases int64, o
 	}
 	// a handful of sample cases, spread over the extractors: the second mutated case of every 6th extractor
 	for i := 0; i < len(w.Exts); i += 6 {
-		p.sampleAt[[2]int64{int64(i), int64(len(w.Exts[i].Det)) + 1}] = true
+		p.sampleAt[[2]int64{int64(i), int64(len(w.Exts[i].Det)+len(w.Exts[i].Sys)) + 1}] = true
 	}
 	setup := time.Since(t0)
 	var wg sync.WaitGroup
@@ -642,10 +692,34 @@ func runParent(cfg *Config, workers int, budget time.Duration, maxCases int64, o
 			"worker_deaths": s.WorkerDeaths, "distinct_inputs": s.Distinct, "nontrivial": s.Nontrivial,
 			"path_not_required": s.NotReq, "file_required_false_at_call": s.FileReqFalse,
 			"seeds":             map[string]int{"own_fixtures": len(e.Own), "c03_generated": len(e.C03), "synthetic": len(w.Synth), "cross_pool": len(w.OwnAll) - len(e.Own)},
-			"seed_source_calls": s.src, "unmutated_seed_cases": len(e.Det), "accepted_paths": paths, "paths_used": s.paths, "distinct_seed_files_used": len(s.seeds), "cpu_s": round3(float64(s.SpentUS) / 1e6),
+			"seed_source_calls": s.src, "unmutated_seed_cases": len(e.Det),
+			"systematic_cases": map[string]int{"seeds": e.SysStat.Seeds, "structured_seeds": e.SysStat.Structured, "value_edits": e.SysStat.Value, "line_edits": e.SysStat.Line, "run": int(minI64(s.nextK, int64(len(e.Det)+len(e.Sys)))) - len(e.Det)}, "accepted_paths": paths, "paths_used": s.paths, "distinct_seed_files_used": len(s.seeds), "cpu_s": round3(float64(s.SpentUS) / 1e6),
 			"slow_calls_over_1s": s.SlowCalls, "calls_leaving_goroutines_behind": s.LeakCalls, "max_call_ms": s.MaxUS / 1000, "package_dir": e.PkgDir, "requirements": e.Reqs,
 			"os_release_varied": e.OSRel, "materialised_on_disk": e.DirectFS,
 		}
+	}
+	sysTot := map[string]any{}
+	{
+		var ex, seeds, st, val, line, det int
+		complete := true
+		for i, e := range w.Exts {
+			if len(e.Sys) > 0 {
+				ex++
+			}
+			seeds += e.SysStat.Seeds
+			st += e.SysStat.Structured
+			val += e.SysStat.Value
+			line += e.SysStat.Line
+			det += len(e.Det)
+			if (p.only == nil || p.only[e.Name]) && p.st[i].nextK < p.mandatory(i) {
+				complete = false
+			}
+		}
+		sysTot = map[string]any{"what": "deterministic prefix run completely before the time-budgeted random phase (fixed iteration count, no deadline except the per-call one): " +
+			"unmutated seeds, then per text extractor the small seeds (<= 8 KiB, <= 6 per extractor) x {every string leaf of a JSON/TOML/YAML seed x separator-aware rewrites (<= 400 per seed), " +
+			"every line x case / truncation / continuation / cut edits (<= 300 per seed)}",
+			"extractors_with_systematic_cases": ex, "seeds": seeds, "structured_seeds": st, "value_edit_cases": val, "line_edit_cases": line,
+			"unmutated_seed_cases": det, "handed_out_completely": complete, "handout_finished_after_s": round3(p.sysHandoutS)}
 	}
 	ops := map[string]int64{}
 	for i, n := range p.opHist {
@@ -663,6 +737,7 @@ func runParent(cfg *Config, workers int, budget time.Duration, maxCases int64, o
 		"timeout_s":          cfg.Timeout.Seconds(),
 		"memlimit_mib":       cfg.MemMiB,
 		"budget_s":           budget.Seconds(),
+		"systematic_pass":    sysTot,
 		"extractors_fuzzed":  len(w.Exts),
 		"skipped_extractors": w.Skipped,
 		"per_extractor":      per,
@@ -768,4 +843,11 @@ func runReplay(cfg *Config, file string) int {
 		return 2
 	}
 	return 0
+}
+
+func minI64(a, b int64) int64 {
+	if a < b {
+		return a
+	}
+	return b
 }
